@@ -457,6 +457,14 @@ class SpooledStringIO(SpooledIOBase):
     def readline(self, length=None):
         self._checkClosed()
         ret = self.buffer.readline(length).decode('utf-8')
+        # The codec reader ends a line at every str.splitlines() boundary
+        # (form feed, U+2028, ...); like io.StringIO and readlines(), only
+        # "\n", "\r" and "\r\n" end a line here, so keep reading.
+        while length is None and ret and ret[-1] not in '\r\n':
+            more = self.buffer.readline().decode('utf-8')
+            if not more:
+                break
+            ret += more
         self._tell = self.tell() + len(ret)
         return ret
 
